@@ -145,6 +145,11 @@ def check_module(text, cfg, st, viol, tag=''):
             else:
                 routine = '_main'
                 slotmap = {}
+                goffset = {}
+                off_ = 0
+                for gname, gtype in code._globals.items():
+                    goffset[gname] = off_
+                    off_ += model_size(ctx, gtype)
                 k = 0
                 for ent in lst:
                     if ent[0] == 'label':
@@ -189,8 +194,22 @@ def check_module(text, cfg, st, viol, tag=''):
                         scope = 'g' if (op.startswith(('readg', 'readidxg')) or op in ('storeg', 'pushrefg', 'storeidxg', 'initarrg')) else 'l'
                         if op in ('storeref',):
                             continue
-                        key = (routine if scope == 'l' else '_globals', largs[0])
                         idx = ops[0][1]
+                        if scope == 'g':
+                            # a global operand is written with its short name; inside a routine that owns a STATIC variable
+                            # of that name it denotes that variable.  Its slot must be where the .globals order and the size
+                            # model put it.
+                            rname = routine.replace('_sub_', '', 1).replace('_func_', '', 1)
+                            full = f'_static_{rname}_{largs[0]}' if f'_static_{rname}_{largs[0]}' in goffset else largs[0]
+                            if full in goffset:
+                                st['global_slots_checked'] = st.get('global_slots_checked', 0) + 1
+                                if goffset[full] != idx:
+                                    viol.append(V('C09:global-slot', f'{tag} {cn}: at {addr}: {op} {largs[0]} in {routine} denotes {full}, '
+                                                  f'which the .globals order puts at cell {goffset[full]}; the module says {idx}',
+                                                  text=text[:500]))
+                            key = ('_globals', full)
+                        else:
+                            key = (routine, largs[0])
                         if slotmap.setdefault(key, idx) != idx:
                             viol.append(V('C09:slot-not-a-function', f'{tag} {cn}: {key} -> {slotmap[key]} and {idx}', text=text[:500]))
     # 4. targets and slots
